@@ -36,6 +36,12 @@ CHECKS['C09'] = dict(cat='exploration', engine='normcheck', tech='exhaustive enu
 CHECKS['C18'] = dict(cat='exploration', engine='strcheck', tech='bounded-exhaustive enumeration of all short strings over the syntactically significant alphabet, in-process; independent statistics / grammar predicates and parse-back through the real CIF 2.0 parser as oracle',
       text='All strings of length <= 4 (thorough 5) over 18 significant characters and <= 6 (thorough 8) over the quote/semicolon/newline alphabet, crossed with allow_unquoted x allow_triple_quoted x five length limits: exact statistics, admissible and usable delimiter, simple forms preferred when they fit, and - with the real limit - the string presented with the recommended delimiter in four layouts (after a name, at column 1, after another value, ending at column 2048) must be read back by cif_parse as exactly that string with the right quoting status. set_quoted(NOT_QUOTED), the scanner and cif_is_reserved_string are compared with a transcription of the CIF 2.0 grammar.',
       note='Strings longer than the bound are covered only by the a^n family around the 2048 thresholds. Text fields are presented with my own prefix-protocol encoder.', ref='C18')
+CHECKS['C02'] = dict(cat='exploration', tech='bounded-exhaustive enumeration of managed CIFs (all short strings x positions, long-line threshold families, column positions, structures by different API routes) written with cif_write and re-parsed; equivalence oracle on canonical dumps',
+      text='All strings of length <= 4 (thorough 5) over the 17 significant characters (no CR), stored quoted and unquoted, as scalar, first and later loop value, list element, table value and table key; 2600+ long values sweeping every writer threshold around 2048 and the fold window with blanks, semicolons, backslashes, supplementary characters at every offset; data names of 2030-2048 characters; structures built via set_value, add_packet/add_item, iterator update/remove, nested frames, non-ASCII names, deep nesting, parse-then-modify. cif_write must succeed; output must start with the 2.0 magic, be valid UTF-8 with no line over 2048, re-parse without any error callback and dump equivalent to the original.',
+      note='Batches of 60 strings per CIF are bisected on failure. Equivalence exactly as stated in the property (number == unquoted string, ;-leading unquoted string may return quoted). Strings beyond the length bound are covered only by the parametrised long families.', ref='C02')
+CHECKS['C13'] = dict(cat='exploration', tech='same bounded-exhaustive round-trip machinery as C02 with cif_version = 1 and a refusal oracle',
+      text='All strings of length <= 4 (thorough 5) over the 12 CIF 1.1-significant characters as scalars and loop values, the long-line families, column positions and structures without lists/tables, plus non-1.1 characters: cif_write(version 1) must either refuse with CIF_DISALLOWED_CHAR (only if some string has a non-1.1 character) or CIF_DISALLOWED_VALUE (only if a list/table or a string containing newline+semicolon is present), or produce output starting with the 1.1 magic, made solely of CIF 1.1 characters, no line over 2048, that re-parses as CIF 1.1 with folding and prefix decoding enabled, without error, to an equivalent CIF.',
+      note='Which refusals are admissible is decided by an oracle written from the statement; any other failure code, or success with altered content, is a violation.', ref='C13')
 NOT_APPLICABLE = {}
 
 def main():
